@@ -318,6 +318,10 @@ func c10FreeRun(p *Plan) string {
 			return fmt.Sprintf("response %d differs (%s): expected %s %q, got %s %q %s", k, dd, op.Exp.Kind, op.Exp.Text, r.Kind, r.Text, r.Err)
 		}
 	}
+	if haveFirst {
+		// the plan was cut by its op budget right after a dispatch: issue that call too, the model counted its invocation
+		d.h.Next(firstArg)
+	}
 	minvs, _ := decodeExtra[[]MInv](p, "model_invocations")
 	time.Sleep(2 * time.Millisecond)
 	if n := d.h.nInvs(); n != len(minvs) {
